@@ -165,6 +165,10 @@ def battery(ctx, prop, exh_len, n_prog, n_soup, tower_depth=128, list_len=2000, 
             else:
                 t = "\ufeff" + v
             texts.append(t)
+        # very many syntax errors in one file, then a declaration that must still be parsed (no cap on diagnostics)
+        for n in (300, 1000, 1001, 1500, 2500):
+            texts.append(") " * n + "\nconst cLast = 1\n")
+            texts.append("proc P\n" + " x = )\n" * n + "endproc\nconst cLast = 1\n")
         # numeric and #-literals at and beyond every machine-integer boundary
         for big in ("255", "256", "65535", "65536", "4294967295", "4294967296", "18446744073709551615", "18446744073709551616",
                     "99999999999999999999999999", "0" * 40, "1e400", "0x" + "F" * 20, "1." + "9" * 30):
